@@ -21,7 +21,8 @@ CONSTANTS MaxCircs,    \* circuit handles
           ObsKinds,    \* kinds of interior observation: "full" battery, "plot" (compact drawing), "plotnc", "stim", "duration", "ops"
           Masks,       \* mask lists the Mask action may use (sequences of MaskRec)
           DeepRefs,    \* may an explicit relation refer to an operation nested inside a sub-circuit (not a direct entry)?
-          EmitOneIn    \* print every history (1) or a random 1/EmitOneIn sample of them (seeded by TLC's -seed)
+          EmitOneIn,   \* print every history (1) or a 1/EmitOneIn sample of them, chosen by a function of the history itself
+          EmitSalt     \* (so the sample does not depend on how TLC's workers are scheduled); EmitSalt varies the sample with the seed
 VARIABLES heap, tops, sealed, env, next, hist
 
 vars == <<heap, tops, sealed, env, next, hist>>
@@ -188,5 +189,15 @@ Spec == Init /\ [][Next]_vars
 \* ---- emission of programs (generation role)
 \* every history is a program: the replay observes every circuit once more at its end
 Complete == Len(hist) >= MinEmit /\ hist[Len(hist)].a # "NewCircuit"
-EmitProgram == (Complete /\ (EmitOneIn = 1 \/ RandomElement(1..EmitOneIn) = 1)) => PrintT(<<"PROGRAM", ToJson(hist)>>)
+\* a deterministic stand-in for a random draw: a weighted sum over the numeric content of the steps
+ActCode(a) == CASE a = "NewCircuit" -> 1 [] a = "AddOp" -> 2 [] a = "AddSub" -> 3 [] a = "CopyCirc" -> 4 [] a = "Apply" -> 5 [] a = "Reapply" -> 6
+                [] a = "Flatten" -> 7 [] a = "Mask" -> 8 [] a = "SetDur" -> 9 [] a = "SetRep" -> 10 [] a = "Enter" -> 11 [] a = "Leave" -> 12 [] OTHER -> 13
+StepCode(st) ==
+  ActCode(st.a) + 3 * (IF st.link.k = "one" THEN (CASE st.link.rt = "FB" -> 1 [] st.link.rt = "JS" -> 2 [] OTHER -> 3) ELSE 0)
+  + 5 * (LET q == st.m.qs IN IF q = <<>> THEN 0 ELSE q[1] + 2 * Len(q) + Len(st.m.chans))
+  + 11 * (IF st.m.dur[1] = "fixed" THEN st.m.dur[2] ELSE IF st.m.dur[1] = "global" THEN 3 ELSE 5)
+  + 17 * (IF st.rep[1] = "fixed" THEN st.rep[2] ELSE 7) + 19 * Len(st.fm) + 23 * st.val
+HistCode(h) == LET F[j \in 0..Len(h)] == IF j = 0 THEN 0 ELSE F[j-1] + (13 * j + 7) * StepCode(h[j]) IN F[Len(h)]
+Sampled == EmitOneIn = 1 \/ (HistCode(hist) + EmitSalt) % EmitOneIn = 0
+EmitProgram == (Complete /\ Sampled) => PrintT(<<"PROGRAM", ToJson(hist)>>)
 =============================================================================
